@@ -735,7 +735,11 @@ def run_check(prop, tier, seed):
                         run.known_hits[kf["id"]] = run.known_hits.get(kf["id"], 0) + 1
                     else:
                         run.violations.append(("impl∉spec", req, f"{prof}: {b}", f"same as {base}: {a}", prof))
-    for feats in cfg.get("feature_runs", ([], []))[ti]:
+    feature_runs = list(cfg.get("feature_runs", ([], []))[ti])
+    if run.broken_obligations or run.violations:
+        # a broken obligation / a mismatch: also the feature combinations only the thorough tier builds (e.g. rkyv together with packed)
+        feature_runs = list(dict.fromkeys(feature_runs + list(cfg.get("feature_runs", ([], []))[1])))
+    for feats in feature_runs:
         exe = run.cargo_build("dev", feats)
         if exe is None:
             continue
